@@ -77,6 +77,17 @@ def main(argv):
     if os.path.realpath(src) != os.path.realpath(d):
         shutil.copy(os.path.join(src, 'patch.diff'), d)
         shutil.copy(os.path.join(src, 'demo.py'), d)
+    prev = {}
+    try:
+        prev = json.load(open(os.path.join(d, 'meta.json'))).get('verified', {})
+    except Exception:
+        pass
+    if 'tests_tail' not in out and prev.get('tests_tail'):
+        out['tests_tail'] = prev['tests_tail'] + ' (from the first verification)'
+    if prev.get('check') and prev['check'].get('quick', {}).get('exit') == 0:
+        out['first_check_missed_it'] = True
+    if prev.get('first_check_missed_it'):
+        out['first_check_missed_it'] = True
     meta['verified'] = out
     meta['caught_by_quick'] = out.get('check', {}).get('quick', {}).get('exit') == 1
     json.dump(meta, open(os.path.join(d, 'meta.json'), 'w'), indent=1)
